@@ -40,6 +40,8 @@ class FnInfo:
     n_asserts: int = 0
     proof_blocks: List[Tuple[str, int]] = field(default_factory=list)   # (vc loc, number of asserts)
     rewrites: List[str] = field(default_factory=list)
+    lost: List[str] = field(default_factory=list)     # annotations whose anchor is gone in the current source (left out)
+    auto_added: bool = False                          # helper pulled in automatically (no contract)
     gen_start: int = 0         # byte offsets in the generated file
     gen_end: int = 0
     verus_name: str = ''       # module path name Verus reports
@@ -223,8 +225,15 @@ def _find_nth(hay: str, needle: str, nth, what: str) -> List[Tuple[int, int]]:
     return [idxs[nth]]
 
 
+DROP_INSERTS: set = set()      # (fn_label, vc location) of proof-hint blocks left out of a changed function (rule R26)
+DROP_CLAUSES: set = set()      # (fn_label, clause label) pairs left out of contract-only stubs (rule R25, set by the runner)
+
+
 def _render_block(blk: ClauseBlock, indent: str, fn_label: str) -> List[Seg]:
     segs = []
+    if DROP_CLAUSES:
+        kept = ClauseBlock([c for c in blk.clauses if (fn_label, c.label) not in DROP_CLAUSES])
+        blk = kept
     for text, cl in blk.render(indent):
         if cl is None:
             segs.append(Seg(text, {'kind': 'vc-kw'}))
@@ -495,8 +504,28 @@ def extract_fn(unit: str, file: str, item: str, mode: str, contracts, canary: bo
 
     # loops (A2, R8)
     loops = find_loops(toks, blo, bhi)
+
+    class _Txn:
+        """an annotation whose anchor is lost is left out as a whole (rule R26): undo its partial edits, remember it"""
+        def __enter__(self_t):
+            self_t.n_edits, self_t.n_cl, self_t.n_pb, self_t.n_as, self_t.n_rw = len(edits), len(info.clauses), len(info.proof_blocks), info.n_asserts, len(info.rewrites)
+            self_t.n_bs = len(body_start_ins)
+            return self_t
+        def __exit__(self_t, et, ev, tb):
+            if et is not None and issubclass(et, LostAnchor):
+                del edits[self_t.n_edits:]
+                del body_start_ins[self_t.n_bs:]
+                del info.clauses[self_t.n_cl:]
+                del info.proof_blocks[self_t.n_pb:]
+                del info.rewrites[self_t.n_rw:]
+                info.n_asserts = self_t.n_as
+                info.lost.append(str(ev))
+                return True
+            return False
+
     if c:
         for k, ls in sorted(c.loops.items()):
+          with _Txn():
             if k >= len(loops):
                 raise LostAnchor('%s: loop %d not found (function has %d loops)' % (fn_label, k, len(loops)))
             lp = loops[k]
@@ -562,6 +591,7 @@ def extract_fn(unit: str, file: str, item: str, mode: str, contracts, canary: bo
     if c and c.closures:
         cls = find_closures(toks, blo, bhi)
         for k, cs in sorted(c.closures.items()):
+          with _Txn():
             if k >= len(cls):
                 raise LostAnchor('%s: closure %d not found (function has %d closures)' % (fn_label, k, len(cls)))
             cl = cls[k]
@@ -573,7 +603,7 @@ def extract_fn(unit: str, file: str, item: str, mode: str, contracts, canary: bo
             spec_segs = [Seg(' -> %s\n' % cs.ret if cs.ret else '\n', rw('A4'))] + _render_block(cs.block, '                ', fn_label)
             info.clauses += cs.block.clauses
             ins_at = toks[cl.params_end_tok].end
-            prf = (' proof { %s } ' % cs.proof) if cs.proof else ''
+            prf = (' proof { %s } ' % cs.proof) if cs.proof and (fn_label, '%s:%d' % (c.vc_file, cs.vc_line)) not in DROP_INSERTS else ''
             if cl.is_block:
                 edits.append((ins_at, ins_at, ('SEGS', spec_segs), rw('A4')))
                 if prf:
@@ -591,7 +621,10 @@ def extract_fn(unit: str, file: str, item: str, mode: str, contracts, canary: bo
     # inserts (A3) and replaces
     if c:
         for ins in c.inserts:
+          with _Txn():
             org = {'kind': 'insert', 'fn': fn_label, 'vc': '%s:%d' % (ins.vc_file, ins.vc_line), 'tags': c.serves}
+            if (fn_label, org['vc']) in DROP_INSERTS:
+                raise LostAnchor('%s: proof block %s left out (does not compile against the changed function)' % (fn_label, org['vc']))
             n_as = len(re.findall(r'\bassert\s*\(', ins.text)) + len(re.findall(r'\bassert\s+forall\b', ins.text))
             info.n_asserts += n_as
             if n_as:
@@ -619,6 +652,7 @@ def extract_fn(unit: str, file: str, item: str, mode: str, contracts, canary: bo
                     a = body_open.start + (pe if ins.where == 'after' else p)
                     edits.append((a, a, txt, org))
         for rp in c.replaces:
+          with _Txn():
             whole = sf.text[it.start:it.end]
             for (p, pe) in _find_nth(whole, rp.old, rp.nth, fn_label):
                 a = it.start + p
@@ -671,9 +705,34 @@ def extract_fn(unit: str, file: str, item: str, mode: str, contracts, canary: bo
 _DIRECTIVE = re.compile(r'^\s*//@(\w+)\s*(.*)$')
 
 
-def assemble(unit_path: str, contracts=None, canary: bool = False) -> Assembled:
+def find_helper(file: str, name: str, type_name: Optional[str]):
+    """Locate `fn name` (free, or a method of `type_name`) in `file`, else in any source file of the same crate (rule R27).
+    Returns (file, item path) or None."""
+    import glob
+    crate_src = file[:file.index('/src/') + 5] if '/src/' in file else os.path.dirname(file)
+    cands = [file] + sorted(os.path.relpath(p, REPO) for p in glob.glob(os.path.join(REPO, crate_src, '**', '*.rs'), recursive=True)
+                            if os.path.relpath(p, REPO) != file)
+    for f in cands:
+        try:
+            sf = source(f)
+        except LostAnchor:
+            continue
+        for path in ([('%s::%s' % (type_name, name))] if type_name else []) + [name]:
+            try:
+                it = sf.find(path)
+                if it.kind == 'fn' and it.body_open_tok >= 0:
+                    return f, path
+            except KeyError:
+                pass
+    return None
+
+
+def assemble(unit_path: str, contracts=None, canary: bool = False, extras: Optional[List[Tuple[str, str, str]]] = None) -> Assembled:
+    """extras: (after function label, file, item path) -- helper functions pulled in automatically, without a contract (R27)"""
     if contracts is None:
         contracts = load_all(VERIF)
+    extras = list(extras or [])
+    pending_free: List[Tuple[str, str]] = []
     unit = os.path.splitext(os.path.basename(unit_path))[0]
     segs: List[Seg] = []
     fns: List[FnInfo] = []
@@ -693,6 +752,20 @@ def assemble(unit_path: str, contracts=None, canary: bool = False) -> Assembled:
             m = _DIRECTIVE.match(line)
             if not m:
                 segs.append(Seg(line + '\n', {'kind': 'unit', 'file': path, 'line': ln}))
+                if line.rstrip() == '}' and pending_free:
+                    # end of an `impl` block of the template: free helper functions needed by its methods follow it
+                    for (xf, xi) in pending_free:
+                        if '::' in xi:
+                            continue
+                        xs, xinfo = extract_fn(unit, xf, xi, 'body', contracts, False, {})
+                        xinfo.auto_added = True
+                        xinfo.verus_name = '::'.join(mod_stack + [xi])
+                        start = sum(len(s.text.encode()) for s in segs)
+                        segs.extend(xs)
+                        xinfo.gen_start = start
+                        xinfo.gen_end = sum(len(s.text.encode()) for s in segs)
+                        fns.append(xinfo)
+                    del pending_free[:]
                 # track module nesting for Verus function names (best effort, `mod x {` on its own line)
                 mm = re.match(r'^\s*(pub(\([a-z]+\))?\s+)?mod\s+(\w+)\s*\{\s*$', line)
                 if mm:
@@ -738,12 +811,23 @@ def assemble(unit_path: str, contracts=None, canary: bool = False) -> Assembled:
                         missing_stubs.append('%s::%s' % (file, item))
                         continue
                     raise
-                info.verus_name = '::'.join(mod_stack + [item.split('::')[-1]])
-                start = sum(len(s.text.encode()) for s in segs)
-                segs.extend(fsegs)
-                info.gen_start = start
-                info.gen_end = sum(len(s.text.encode()) for s in segs)
-                fns.append(info)
+                def emit(fsegs_, info_, item_):
+                    info_.verus_name = '::'.join(mod_stack + [item_.split('::')[-1]])
+                    start = sum(len(s.text.encode()) for s in segs)
+                    segs.extend(fsegs_)
+                    info_.gen_start = start
+                    info_.gen_end = sum(len(s.text.encode()) for s in segs)
+                    fns.append(info_)
+                emit(fsegs, info, item)
+                for (after, xf, xi) in extras:
+                    if after != '%s::%s' % (file, item):
+                        continue
+                    if ('::' in xi) == ('::' in item):
+                        xs, xinfo = extract_fn(unit, xf, xi, 'body', contracts, False, {})
+                        xinfo.auto_added = True
+                        emit(xs, xinfo, xi)
+                    else:
+                        pending_free.append((xf, xi))
             elif d in ('unit', 'note', 'serves', 'bodies', 'rlimit'):
                 pass
             else:
